@@ -311,6 +311,7 @@ pub fn lib_accepts(key: &str, v: &Val) -> bool {
         ("Duration", Val::U(x)) => *x / 1_000_000_000 <= u64::MAX as u128,
         ("SystemTime", Val::U(x)) => (*x & ((1u128 << 127) - 1)) < (1u128 << 90) && *x != (1u128 << 127),
         ("Canary1", Val::U(x)) => *x == 0x47566843,
+        ("DropProbe", Val::U(x)) => *x != 0xFF,
         _ => true,
     }
 }
